@@ -9,9 +9,18 @@ import Aegean.Generated.C12
 namespace Aegean.Model.C12
 open Aegean.Model.C08
 
+def insertSorted (a : Nat) : List Nat → List Nat
+  | [] => [a]
+  | b :: l => if a ≤ b then a :: b :: l else b :: insertSorted a l
+
+/-- `sorted(pd)` -/
+def isort : List Nat → List Nat
+  | [] => []
+  | a :: l => insertSorted a (isort l)
+
 /-- `_uniq()` with the encoder and the loop range as parameters -/
 def uniqWith (enc : Nat → Nat → Nat) (levels : Nat → List Nat) (r : Region) : List Nat :=
-  ((levels r.m).flatMap (fun d => (r.pd d).map (enc d))).mergeSort (fun a b => decide (a ≤ b))
+  isort ((levels r.m).flatMap (fun d => (r.pd d).map (enc d)))
 
 /-- `_uniq()` as coded -/
 def uniq (r : Region) : List Nat := uniqWith Gen.C12.encode Gen.C12.levels r
